@@ -15,7 +15,10 @@ RULE = (
     "only. Non-trivial = mixed-sign pair (min < 0 < max); distinct by (max, min). dense_output: the same oracle applied "
     "to the dtype iindex.to_array() selects by default for generated value sets. indx_word: the coordinate word "
     "size byte of files written by IndxIO.save for generated entries (arity 1..4, widest value in any key and "
-    "position, or in the common value) must be the narrowest of 1/2/4/8 (the full byte layout is C11's)."
+    "position, or in the common value) must be the narrowest of 1/2/4/8 (the full byte layout is C11's). "
+    "collapsed_output: 2-D indexes with 1..3 / 254..257 / 65535..65537 columns and values at the dtype edges "
+    "(127/128, 255/256, 32767/32768, 65535/65536, 2^31 and the negative counterparts), collapsed with drawn precedence "
+    "lists; the result must follow the documented rule (the dtypes chosen inside are not observable, wrap-around is)."
 )
 ASSUMPTIONS = [
     "domain: -2^63 <= min <= 0, min <= max, max <= 2^63-1 when min < 0 else max < 2^64 "
@@ -251,7 +254,64 @@ def check_indx_word(case, rec):
             rec.nontrivial()
 
 
+@st.composite
+def collapsed_cases(draw, tier):
+    """Collapsing picks two dtypes by itself: one for the output values (from the precedence list) and one for a
+    per-row counter that must hold the NUMBER OF COLUMNS. Both are exercised at the dtype boundaries."""
+    C = draw(st.sampled_from([1, 2, 3, 254, 255, 256, 257, 65535, 65536, 65537]))
+    N = draw(st.integers(1, 4))
+    edge = st.sampled_from([0, 1, 2, 127, 128, 255, 256, 32767, 32768, 65535, 65536, 2 ** 31 - 1, 2 ** 31,
+                            -1, -128, -129, -32768, -32769, -(2 ** 31), -(2 ** 31) - 1])
+    values = draw(st.lists(edge, min_size=2, max_size=5, unique=True))
+    common = draw(st.sampled_from(values))
+    others = [v for v in values if v != common]
+    cols = sorted(set(draw(st.lists(st.one_of(st.integers(0, min(C - 1, 3)), st.integers(max(0, C - 3), C - 1),
+                                              st.integers(0, C - 1)), max_size=6))))
+    cells = []
+    for c in cols:
+        for r in range(N):
+            if draw(st.booleans()):
+                cells.append([r, c, draw(st.sampled_from(others))])
+    fill_rows = draw(st.lists(st.integers(0, N - 1), unique=True, max_size=2))  # rows without any common cell
+    prec = draw(st.permutations(values))
+    prec = list(prec[: draw(st.integers(1, len(prec)))])
+    return {"C": C, "N": N, "common": common, "cells": cells, "full_rows": fill_rows,
+            "full_value": draw(st.sampled_from(others)), "precedence": prec}
+
+
+def check_collapsed(case, rec):
+    """collapsed() output equals the documented rule whatever the column count and value magnitudes."""
+    import numpy
+
+    from catii import iindex
+
+    from .. import cubes as Q
+
+    C, N, common = case["C"], case["N"], case["common"]
+    dense = numpy.full((N, C), common, dtype=numpy.int64)
+    for r in case["full_rows"]:
+        dense[r, :] = case["full_value"]
+    for r, c, v in case["cells"]:
+        dense[r, c] = v
+    ix = Q.build_index(dense, common)
+    prec = list(case["precedence"])
+    with libcall("collapsed(%d columns, precedence %s)" % (C, prec)):
+        out = ix.collapsed(prec)
+    got = Q.dense_of(out)
+    want = []
+    for row in dense:
+        present = set(row.tolist())
+        want.append(next((p for p in prec if p in present), prec[-1]))
+    if got.shape != (N,) or got.tolist() != want:
+        raise Violation("collapsed(%s) of %d rows x %d columns (common %d) gives %s, the documented rule gives %s" % (
+            prec, N, C, common, got.tolist(), want), sig="collapsed wrong at a dtype boundary")
+    rec.note("columns=%d" % C, "ends in common" if prec[-1] == common else "does not end in common")
+    if prec[-1] != common and C >= 255:
+        rec.nontrivial()
+
+
 SUBS = [
+    Sub("collapsed_output", check_collapsed, strategy=collapsed_cases, examples={"quick": 1600, "thorough": 60000}),
     Sub("indx_word", check_indx_word, strategy=indx_cases, examples={"quick": 3000, "thorough": 100000},
         shards={"quick": 8, "thorough": 16}),
     Sub("dense_output", check_dense, strategy=dense_cases, examples={"quick": 6000, "thorough": 300000},
